@@ -520,8 +520,8 @@ pub fn run_once(cfg: &WakeCfg, shard: &mut Shard) -> (u64, bool, bool) {
         /// inside wait, predicate true: it is expected to return by itself
         WaitTrue(String),
     }
-    let classify = |c: &(u32, usize, u32)| -> CS {
-        let (e, x, seq, at, wc) = snap(c.0);
+    let classify_raw = |c: &(u32, usize, u32), sn: (u64, u64, usize, usize, usize)| -> CS {
+        let (e, x, seq, at, wc) = sn;
         if e == x || at == 0 {
             return CS::Running;
         }
@@ -555,6 +555,18 @@ pub fn run_once(cfg: &WakeCfg, shard: &mut Shard) -> (u64, bool, bool) {
         } else {
             CS::WaitTrue(detail)
         }
+    };
+    let classify = |c: &(u32, usize, u32)| -> CS {
+        let sn = snap(c.0);
+        let r = classify_raw(c, sn);
+        // The spy slot, the stamps and the memory the predicate reads are sampled one after the other:
+        // the classification only stands if the consumer was inside the very same wait() call before
+        // and after all of it was read (otherwise stale arguments get mixed with fresh stamps).
+        let (e1, x1, _, _, _) = snap(c.0);
+        if e1 != sn.0 || x1 == e1 {
+            return CS::Running;
+        }
+        r
     };
     // own-CPU-time bound for a wait that keeps spinning although its predicate is true
     let mut spin_watch: Vec<(u64, u64)> = vec![(u64::MAX, 0); MAXT]; // (wait entry number, cpu ns when first seen)
@@ -733,14 +745,14 @@ pub fn run_once(cfg: &WakeCfg, shard: &mut Shard) -> (u64, bool, bool) {
         if shared.sent.load(SeqCst) != sent_before {
             continue;
         }
-        // lost-notify needs the predicate to still be un-notified
+        // re-classify from scratch: every stuck consumer must still be in the same wait() call and in
+        // the same class
         let still = stuck.iter().all(|(t, _, kind, _)| {
-            if kind == "lost-notify" {
-                T_NOTIFY.load(SeqCst) < T_CHK[*t as usize].load(SeqCst)
-                    && T_WOKEN[*t as usize].load(SeqCst) < T_CHK[*t as usize].load(SeqCst)
-            } else {
-                let (_, _, seq, at, wc) = snap(*t);
-                !wait::check(seq, unsafe { &*(at as *const AtomicUsize) }, unsafe { &*(wc as *const AtomicUsize) })
+            let c = consumer_tids.iter().find(|c| c.0 == *t).unwrap();
+            match classify(c) {
+                CS::WaitFalse(k, _) => &k == kind,
+                CS::LostNotify(_) => kind == "lost-notify",
+                _ => false,
             }
         });
         if !still {
